@@ -3,6 +3,19 @@
 import json, os
 V = os.path.dirname(os.path.dirname(os.path.abspath(__file__)))
 rows = []
+
+
+def _needed(notes):
+  if not notes:
+    return ''
+  head = notes[:60].lower()
+  if 'not detected' in head:
+    return 'undetectable (limit)'
+  if head.startswith('detected at first') or 'first pass: detected' in head or 'first pass (' in head and 'detected' in head:
+    return ''
+  return 'yes'
+
+
 for sid in sorted(os.listdir(os.path.join(V, 'seeded'))):
   p = os.path.join(V, 'seeded', sid, 'meta.json')
   if not os.path.exists(p):
@@ -15,7 +28,7 @@ for sid in sorted(os.listdir(os.path.join(V, 'seeded'))):
       first = r['first'][0].split(':')[0]
       break
   rows.append((sid, m.get('property'), (m.get('title') or '')[:90], m.get('confirmed'), m.get('detected_by_check'),
-               first, 'yes' if m.get('notes') else '', (m.get('needs_to_manifest') or '')[:160].replace('\n', ' ')))
+               first, _needed(m.get('notes')), (m.get('needs_to_manifest') or '')[:160].replace('\n', ' ')))
 out = ['# Seeded changes (written by independent sub-agents from the property text only)', '',
        'Each directory holds `patch.diff`, the author\'s `demo.py` (PASS without / FAIL with the patch), `meta.json`',
        '(what it breaks, what it needs to manifest, what was run) and the minimised `replay.json` the check produced.',
